@@ -197,12 +197,11 @@ Definition cf_add_arm (s : cf) (a : A) (bz : option (A -> R -> R)) : cf :=
   let s1 := set_exp s0 (aset aeqb (c_exp s0) a 0) in
   let s2 :=
     match c_kind s with
-    | KGreedy | KPopularity | KUcb => set_stats s1 (aset aeqb (c_stats s1) a armst0)
+    | KGreedy | KPopularity | KUcb | KRandom => set_stats s1 (aset aeqb (c_stats s1) a armst0)
     | KSoftmax => softmax_expectation (set_stats s1 (aset aeqb (c_stats s1) a armst0))
     | KThompson =>
         let s' := match bz with Some f => set_binz s1 (Some f) | None => s1 end in
         set_stats s' (aset aeqb (c_stats s') a armst0)
-    | KRandom => s1
     end in
   set_status s2 (aset aeqb (c_status s2) a status0).
 
@@ -212,10 +211,9 @@ Definition cf_remove_arm (s : cf) (a : A) : cf :=
   let s1 := set_exp s0 (apop aeqb (c_exp s0) a) in
   let s2 :=
     match c_kind s with
-    | KGreedy | KUcb | KThompson => set_stats s1 (apop aeqb (c_stats s1) a)
+    | KGreedy | KUcb | KThompson | KRandom => set_stats s1 (apop aeqb (c_stats s1) a)
     | KPopularity => popularity_normalize (set_stats s1 (apop aeqb (c_stats s1) a))
     | KSoftmax => softmax_expectation (set_stats s1 (apop aeqb (c_stats s1) a))
-    | KRandom => s1
     end in
   set_status s2 (apop aeqb (c_status s2) a).
 
